@@ -150,6 +150,7 @@ package report
 //@     invariant keyfile: forall k key :: has(srcs, k) ==> s.Sources[srcs[k]].FileName == det("trimPath", 0, k.fileName, rpt.options.TrimPath, rpt.options.SourcePath)
 //@     invariant valid: forall i int :: 0 <= i && i < len(rpt.prof.Sample) ==> rpt.prof.Sample[i] != nil && forall j int :: 0 <= j && j < len(rpt.prof.Sample[i].Location) ==> rpt.prof.Sample[i].Location[j] != nil
 //@     step one_stack: len(s.Stacks) == atiter(1, len(s.Stacks)) + 1 && s.Stacks[len(s.Stacks) - 1].Value == value
+//@     step signed_value: s.Stacks[len(s.Stacks) - 1].Value == fapply(rpt.options.SampleValue, sample.Value)
 //@     step self_leaf: forall x int :: 0 <= x && x < len(s.Sources) ==> s.Sources[x].Self == ite(x < atiter(1, len(s.Sources)), atiter(1, s.Sources[x].Self), 0) + ite(x == s.Stacks[len(s.Stacks) - 1].Sources[len(s.Stacks[len(s.Stacks) - 1].Sources) - 1], value, 0)
 //@     invariant cellsep: forall i int :: 0 <= i && i < len(s.Stacks) ==> !inarray(addr(unknownIndex), s.Stacks[i].Sources)
 //@   loop 2
